@@ -12,16 +12,21 @@ import common, fns, sweeps, crops
 from common import quiet
 
 PROP = 'C16'
-LEAN_MODULES = ['XyzProofs.Props.C16']
+LEAN_MODULES = ['XyzProofs.Props.C16', 'XyzProofs.Refine.Script', 'XyzProofs.Props.C16Gen', 'XyzProofs.Props.C16Cli']
 THEOREMS = ['Scr.c16_ids', 'Scr.c16_array_bijection', 'Scr.c16_pbs_rewrite', 'Scr.c16_single_ids', 'Scr.c16_fields_closed',
             'Scr.c16_templates_closed', 'Scr.c16_render_total', 'Scr.c16_python_balanced', 'Scr.c16_reprTuple_balanced',
-            'Scr.c16_then_ready', 'Scr.c16_then_ready_single']
+            'Scr.c16_then_ready', 'Scr.c16_then_ready_single',
+            # the hand model = the translated body of gen_cluster_script (Gen.gcsOpts, Gen.gcsTail), the other entry points
+            'Scr.gcsOpts_refines', 'Scr.gcsTail_refines', 'Scr.gcsWrappers_faithful', 'Scr.c16_gen_fields', 'Scr.c16_gen_closed',
+            # xyzpy-grow, on the translated effect skeleton of xyzpy_grow_cli.main (Gen.cliSk)
+            'Scr.c16_cli_unsown_raises', 'Scr.c16_cli_unsown_error', 'Scr.c16_cli_grow_guarded', 'Scr.c16_cli_grows_missing',
+            'Scr.c16_cli_exact']
 ANCHORS = ['tplSgeHeader', 'tplSgeArrayHeader', 'tplPbsHeader', 'tplPbsArrayHeader', 'tplSlurmHeader',
            'tplSlurmArrayHeader', 'tplBase', 'tplArrayGrowKwargs', 'tplSgeGrowAll', 'tplPbsGrowAll', 'tplSlurmGrowAll',
            'tplSgeGrowPartial', 'tplPbsGrowPartial', 'tplSlurmGrowPartial', 'tplGrowSingle', 'tplScriptEnd',
            'scriptPieces', 'scriptIdsChoice', 'scriptAllRangeStart', 'scriptAllRangeStop', 'scriptRunStart',
            'scriptRunStopAll', 'scriptRunStopPartial', 'scriptSingleDynamic', 'scriptSingleDynamicIds',
-           'scriptPbsRewrite', 'scriptPbsReplacements', 'isReady']
+           'scriptPbsRewrite', 'scriptPbsReplacements', 'isReady', 'gcsOpts', 'gcsTail', 'gcsWrappers', 'cliSk']
 RULE = ("schedulers {sge,pbs,slurm} x modes {array,single} x crop state {no results, some results, explicit batch_ids of "
         "length 1..B} x option spellings (time as hours/minutes/seconds ints, time=int, time=float, time='h:m:s'; "
         "mem/gigabytes/mem_per_cpu; num_workers/num_procs/num_threads; extra header kwargs incl. flag-style None/True; "
